@@ -115,3 +115,227 @@ def skeletons(src):
             continue
         i += 1
     return slots[1:] if slots and slots[0] == "nil" else slots      # slot 0 is ruleUnknown
+
+
+# ---------------------------------------------------------------------------------------------------------------
+# statement level: the same functions with every statement named, in the notation of the model's `semit` command
+# (Model/SEmit.v):  inc  call<r>  pred  addact<r>  Cdot:l  Cc<code point>:l  Cr<lo>-<hi>:l  Ccall<r>:l  Cpred:l
+#   Ln Jn Sn Rn Pn  add<r>:n  cap:n  mc<r>  M<r>:<n>:<0|1>  ret0 ret1  b { }  sw case:<k.k.k> dflt end   s (anything else)
+RE_CONST = re.compile(r"^const \(\n\truleUnknown pegRule = iota\n((?:\trule\w+\n)+)\)", re.M)
+RE_IF_DOT = re.compile(r"^if !matchDot\(\) \{$")
+RE_IF_CHAR = re.compile(r"^if buffer\[position\] != '(.+)' \{$")
+RE_IF_RANGE = re.compile(r"^if c := buffer\[position\]; c < '(.+)' \|\| c > '(.+)' \{$")
+RE_IF_CALL = re.compile(r"^if !_rules\[rule(\w+)\]\(\) \{$")
+RE_CALL = re.compile(r"^_rules\[rule(\w+)\]\(\)$")
+RE_IF_PRED = re.compile(r"^if !predicate \{$")
+RE_PRED = re.compile(r"^predicate := ")
+RE_ADDACT = re.compile(r"^add\(rule(\w+), position\)$")
+RE_ADDRULE = re.compile(r"^add\(rule(\w+), position(\d+)\)$")
+RE_BEGIN = re.compile(r"^begin := position(\d+)$")
+RE_MEMOCHECK = re.compile(r"^if memoized, ok := memoization\[memoKey(?:\[\w+\])?\{(\d+), position\}\]; ok \{$")
+RE_MEMO2 = re.compile(r"^memoize\((\d+), position(\d+), tokenIndex(\d+), (true|false)\)$")
+RE_CASE = re.compile(r"^case (.*):$")
+
+_SIMPLE_ESC = {"a": 7, "b": 8, "f": 12, "n": 10, "r": 13, "t": 9, "v": 11, "\\": 92, "'": 39, '"': 34}
+
+
+def rune_of(lit):
+    """The code point of the inside of a Go rune literal (what strconv.Quote / escape() wrote); None if it is not one."""
+    if len(lit) == 1:
+        return ord(lit)
+    if lit[0] != "\\" or len(lit) < 2:
+        return None
+    k = lit[1]
+    if k in _SIMPLE_ESC and len(lit) == 2:
+        return _SIMPLE_ESC[k]
+    try:
+        if k == "x" and len(lit) == 4:
+            return int(lit[2:], 16)
+        if k == "u" and len(lit) == 6:
+            return int(lit[2:], 16)
+        if k == "U" and len(lit) == 10:
+            return int(lit[2:], 16)
+        if k in "01234567" and len(lit) == 4:
+            return int(lit[1:], 8)
+    except ValueError:
+        return None
+    return None
+
+
+def split_case_keys(s):
+    """'a', ',', '\\''  ->  the literals' insides"""
+    out, i, n = [], 0, len(s)
+    while i < n:
+        if s[i] in ", ":
+            i += 1
+            continue
+        if s[i] != "'":
+            return None
+        j = i + 1
+        while j < n and s[j] != "'":
+            j += 2 if s[j] == "\\" else 1
+        if j >= n:
+            return None
+        out.append(s[i + 1:j])
+        i = j + 1
+    return out
+
+
+def statements(src):
+    """Per rule-table slot: the statements of the function as tokens, 'nil', or None when the file has no table.
+    A token '?...' marks something this reader cannot name (the comparison then fails on it)."""
+    m = RE_CONST.search(src)
+    if not m:
+        return None
+    rid = {}
+    for k, l in enumerate(m.group(1).strip().split("\n")):
+        rid[l.strip()[4:]] = k
+    lines = src.split("\n")
+    try:
+        i = next(k for k, l in enumerate(lines) if l.strip() == "_rules = [...]func() bool{")
+    except StopIteration:
+        return None
+    slots = []
+    i += 1
+    n = len(lines)
+
+    memo_seen = {}
+
+    def ru(name):
+        return str(rid[name]) if name in rid else "?" + name
+
+    def cp(lit):
+        c = rune_of(lit)
+        return str(c) if c is not None else "?" + lit
+
+    while i < n:
+        l = lines[i]
+        st = l.strip()
+        if l.startswith("\t}") and not l.startswith("\t\t"):
+            break
+        if st == "nil,":
+            slots.append("nil")
+            i += 1
+            continue
+        if st.startswith("/*"):
+            while "*/" not in lines[i]:
+                i += 1
+            i += 1
+            continue
+        if RE_FUNC.match(l):
+            toks, stack = [], []
+            mids = []             # the rule numbers written in this function's memoization statements
+            pend = None           # the test of an `if .. {` whose goto has not been read yet
+            i += 1
+            while i < n and lines[i] != "\t\t},":
+                s = lines[i].strip()
+                i += 1
+                if not s:
+                    continue
+                if pend is not None:
+                    # inside an if: `goto lN` then `}`; or, for the memo check, `return memoizedResult(memoized)` then `}`
+                    m = RE_GOTO.match(s)
+                    if m and pend[0] == "C":
+                        toks.append("%s:%s" % (pend[1], m.group(1)))
+                        pend = ("close",)
+                        continue
+                    if s == "return memoizedResult(memoized)" and pend[0] == "mc":
+                        toks.append("mc@"); mids.append(pend[1])
+                        pend = ("close",)
+                        continue
+                    if s == "}" and pend[0] == "close":
+                        pend = None
+                        continue
+                    toks.append("?if:" + s[:40])
+                    pend = None
+                    continue
+                m = RE_LABEL.match(s)
+                if m:
+                    toks.append("L" + m.group(1)); continue
+                m = RE_GOTO.match(s)
+                if m:
+                    toks.append("J" + m.group(1)); continue
+                m = RE_SAVE.match(s)
+                if m and m.group(1) == m.group(2):
+                    toks.append("S" + m.group(1)); continue
+                m = RE_RESTORE.match(s)
+                if m and m.group(1) == m.group(2):
+                    toks.append("R" + m.group(1)); continue
+                m = RE_SAVEP.match(s)
+                if m:
+                    toks.append("P" + m.group(1)); continue
+                m = RE_MEMO2.match(s)
+                if m and m.group(2) == m.group(3):
+                    toks.append("M@:%s:%s" % (m.group(2), "1" if m.group(4) == "true" else "0")); mids.append(m.group(1)); continue
+                m = RE_MEMOCHECK.match(s)
+                if m:
+                    pend = ("mc", m.group(1)); continue
+                if s == "position++":
+                    toks.append("inc"); continue
+                if RE_IF_DOT.match(s):
+                    pend = ("C", "Cdot"); continue
+                m = RE_IF_RANGE.match(s)
+                if m:
+                    pend = ("C", "Cr%s-%s" % (cp(m.group(1)), cp(m.group(2)))); continue
+                m = RE_IF_CHAR.match(s)
+                if m:
+                    pend = ("C", "Cc" + cp(m.group(1))); continue
+                m = RE_IF_CALL.match(s)
+                if m:
+                    pend = ("C", "Ccall" + ru(m.group(1))); continue
+                m = RE_CALL.match(s)
+                if m:
+                    toks.append("call" + ru(m.group(1))); continue
+                if RE_IF_PRED.match(s):
+                    pend = ("C", "Cpred"); continue
+                if RE_PRED.match(s):
+                    toks.append("pred"); continue
+                m = RE_ADDACT.match(s)
+                if m:
+                    toks.append("addact" + ru(m.group(1))); continue
+                m = RE_ADDRULE.match(s)
+                if m:
+                    toks.append("add%s:%s" % (ru(m.group(1)), m.group(2))); continue
+                m = RE_BEGIN.match(s)
+                if m and i + 1 < n and lines[i].strip() == "end := position" and lines[i + 1].strip() == "text = string(buffer[begin:end])":
+                    toks.append("cap:" + m.group(1)); i += 2; continue
+                if s == "return true":
+                    toks.append("ret1"); continue
+                if s == "return false":
+                    toks.append("ret0"); continue
+                if s == "{":
+                    stack.append("block"); toks.append("{"); continue
+                if s == "switch buffer[position] {":
+                    stack.append("switch"); toks.append("sw"); continue
+                m = RE_CASE.match(s)
+                if m and stack and stack[-1] == "switch":
+                    ks = split_case_keys(m.group(1))
+                    toks.append("case:" + (".".join(cp(k) for k in ks) if ks is not None else "?" + m.group(1))); continue
+                if s == "default:" and stack and stack[-1] == "switch":
+                    toks.append("dflt"); continue
+                if s == "break":
+                    toks.append("b"); continue
+                if s == "}":
+                    k = stack.pop() if stack else "?"
+                    toks.append({"block": "}", "switch": "end", "other": "s"}.get(k, "?}"))
+                    continue
+                if s.endswith("{"):
+                    stack.append("other"); toks.append("s"); continue      # user code with its own braces
+                toks.append("s")
+            i += 1
+            # the memoization key: the generator numbers the user's rules from 0 and the rules it adds itself from
+            # their constant; what matters (and what the model's key, the rule, stands for) is one number per function,
+            # different from every other function's
+            k = len(slots) - 1
+            if len(set(mids)) > 1:
+                me = "?memo-ids-%s" % "-".join(mids)
+            elif mids and mids[0] in memo_seen:
+                me = "?memo-id-%s-also-in-slot-%d" % (mids[0], memo_seen[mids[0]])
+            else:
+                me = str(k)
+                if mids:
+                    memo_seen[mids[0]] = k
+            slots.append(",".join(squash(toks)).replace("@", me))
+            continue
+        i += 1
+    return slots[1:] if slots and slots[0] == "nil" else slots      # slot 0 is ruleUnknown
